@@ -201,13 +201,13 @@ theorem join_output_sorted (inputs : List (String × PInput)) (on : List String)
 
 /-! ## which keys survive: two table inputs -/
 
-/-- **join_keys (two tables)**: `_join_dictable_with_defaults` of two tables is their inner join,
+/-- **two tables, structurally**: `_join_dictable_with_defaults` of two tables is their inner join,
 extended — when the *left* input has defaults — by the rows of the right table whose key the left
 table lacks (with the left defaults filled in), and symmetrically.  Which rows those are is pinned
 down by C02 (`xor_spec`): exactly the rows whose key matches no row of the other table.
-`_partial`: the n-ary fold (`reducer`) and the composition with `_item` are the same step iterated;
-they are modelled (`pdJoin`) and sampled by the correspondence check, not proved as one statement. -/
-theorem join_keys_two_partial (a b d : Table) (da db : List (String × Cell))
+(Formerly `join_keys_two_partial`; the n-ary reduction and the composition with `_item` are now
+proved: `join_keys`.) -/
+theorem joinDef_two_tables (a b d : Table) (da db : List (String × Cell))
     (ka kb ka' kb' : List Val)
     (hne : linter a.cols b.cols ≠ [])
     (hd : a.mul b = some (.ok d))
@@ -298,17 +298,29 @@ theorem item_spec (d t : Table) (key : String) (on : List String) (hd : d.WF)
     KeyedSrc on t key ∧ RowsAgree on key t.R (inputRows on key d) :=
   item_rows d t key on hd hon hkey h
 
-/-- the per-input stage of `join` succeeded -/
-theorem pdJoin_stage {inputs : List (String × PInput)} {on : List String}
-    {defaults : List (String × Cell)} {ds : Table} (h : pdJoin inputs on defaults = some (.ok ds)) :
-    ∃ seq, inputs.mapM (fun kv => match kv.2 with
-      | .table d => (item d kv.1 on).map fun d' => (kv.1, PInput.table d')
-      | .scalar c => (Except.ok (kv.1, PInput.scalar c) : Res (String × PInput))) = .ok seq := by
-  simp only [pdJoin] at h
-  split at h
-  · cases h
-  · rename_i seq he
-    exact ⟨seq, he⟩
+/-- what `join(inputs, on, defaults)` returns (`join_keys` proves it for any number of inputs) -/
+structure JoinSpec (inputs : List (String × PInput)) (on : List String)
+    (defaults : List (String × Cell)) (ds : Table) : Prop where
+  /-- rectangular, at least one column -/
+  wf : ds.WF
+  /-- the key columns and one column per input -/
+  cols : ∀ c, c ∈ ds.cols ↔ c ∈ on ∨ (∃ kv ∈ tableInputs inputs, kv.1 = c) ∨
+    ∃ kv ∈ scalarInputs inputs, kv.1 = c
+  /-- a key is present iff every table input without default holds it; when ALL table inputs have a
+  default: iff at least one of them holds it -/
+  keys : ∀ k, ds.R.hasK on k ↔
+    (∀ kv ∈ tableInputs inputs, dfltOf defaults kv.1 = none → kv.2.R.hasK on k) ∧
+    ((∀ kv ∈ tableInputs inputs, (dfltOf defaults kv.1).isSome = true) →
+      ∃ kv ∈ tableInputs inputs, kv.2.R.hasK on k)
+  /-- in every row the column of a table input holds that input's value at a row with this key, or —
+  when it has no such row — its default, which then exists -/
+  values : VOK on ds.R ((tableInputs inputs).map (inputSrc on defaults))
+  /-- scalars broadcast -/
+  scalars : ∀ q, q < ds.nrows → ∀ kv ∈ scalarInputs inputs, ds.jcellAt kv.1 q = kv.2
+  /-- one row per key when no table input repeats a key -/
+  one_per_key : (∀ kv ∈ tableInputs inputs, kv.2.R.uniq on) → ds.R.uniq on
+  /-- rows in non-decreasing order of `dictable.sort`'s key -/
+  sorted : ((List.range ds.nrows).map (sortKey ds on)).Pairwise (fun a b => cmpLe a b = true)
 
 /-- **join_keys — the n-ary `join` with defaults, for ANY number of inputs.**
 Inputs: a dict of scalars and tables (distinct names, none of them a key column), at least one
@@ -327,18 +339,7 @@ theorem join_keys (inputs : List (String × PInput)) (on : List String)
     (hon : on ≠ []) (hnames : (inputs.map (·.1)).Nodup) (hoff : ∀ kv ∈ inputs, kv.1 ∉ on)
     (htab : ∀ kv ∈ tableInputs inputs, kv.2.WF ∧ ∀ c ∈ on, c ∈ kv.2.cols)
     (hany : tableInputs inputs ≠ [])
-    (h : pdJoin inputs on defaults = some (.ok ds)) :
-    ds.WF ∧
-    (∀ c, c ∈ ds.cols ↔ c ∈ on ∨ (∃ kv ∈ tableInputs inputs, kv.1 = c) ∨
-      ∃ kv ∈ scalarInputs inputs, kv.1 = c) ∧
-    (∀ k, ds.R.hasK on k ↔
-      (∀ kv ∈ tableInputs inputs, dfltOf defaults kv.1 = none → kv.2.R.hasK on k) ∧
-      ((∀ kv ∈ tableInputs inputs, (dfltOf defaults kv.1).isSome = true) →
-        ∃ kv ∈ tableInputs inputs, kv.2.R.hasK on k)) ∧
-    VOK on ds.R ((tableInputs inputs).map (inputSrc on defaults)) ∧
-    (∀ q, q < ds.nrows → ∀ kv ∈ scalarInputs inputs, ds.jcellAt kv.1 q = kv.2) ∧
-    ((∀ kv ∈ tableInputs inputs, kv.2.R.uniq on) → ds.R.uniq on) ∧
-    ((List.range ds.nrows).map (sortKey ds on)).Pairwise (fun a b => cmpLe a b = true) := by
+    (h : pdJoin inputs on defaults = some (.ok ds)) : JoinSpec inputs on defaults ds := by
   obtain ⟨seq, hseq⟩ := pdJoin_stage h
   obtain ⟨i1, i2, i3⟩ := mapM_item_sem on inputs seq hseq
   rw [pdJoin_unfold inputs seq on defaults hseq, i1, i2] at h
@@ -446,6 +447,70 @@ theorem join_keys (inputs : List (String × PInput)) (on : List String)
   · cases h
   · cases h
 
+/-! ## end to end -/
+
+/-- **The property, end to end.**  A function lifted with `perdictable(f, on = keys)` is called with
+keyword arguments `inputs` (distinct names, none of them a key column or `expiry`), at least one of
+them — or `expiry` — a table, every table rectangular and keyed by all of `on`; `defaults`
+arbitrary (`data` and `expiry` always get the default `None`).  Whenever the call returns, there is a
+joined table `ds` such that
+* `ds = join(inputs + expiry, on, defaults)` and `ds` satisfies `JoinSpec` (`join_keys`): **one row
+  per key** present in every table input without default (inputs with defaults contribute their
+  default on the keys they lack), **sorted by key**, value columns = each input's value or its
+  default, scalars broadcast;
+* if no key survives, `f` is never called and the supplied `data` (or `None`) is returned;
+* otherwise the result has the key columns of `ds` and, per row, **`f` of that row's values** — or
+  the previous value when the row is protected by a past expiry (`row_kept_iff`) — and the log of
+  calls of `f` is exactly the list of the unprotected rows: **each computed exactly once**, in row
+  order, no other call. -/
+theorem perdictable_end_to_end (f : List Cell → Val) (params on : List String)
+    (defaults : List (String × Cell)) (inputs : List (String × PInput)) (expiry : PInput)
+    (today : Int) (res : PResult × List (List Cell))
+    (hon : on ≠ []) (hnames : ((inputs ++ [("expiry", expiry)]).map (·.1)).Nodup)
+    (hoff : ∀ kv ∈ inputs ++ [("expiry", expiry)], kv.1 ∉ on)
+    (htab : ∀ kv ∈ tableInputs (inputs ++ [("expiry", expiry)]), kv.2.WF ∧ ∀ c ∈ on, c ∈ kv.2.cols)
+    (hany : tableInputs (inputs ++ [("expiry", expiry)]) ≠ [])
+    (h : perdictable f params on defaults inputs expiry today = some (.ok res)) :
+    ∃ ds : Table,
+      pdJoin (inputs ++ [("expiry", expiry)]) on
+        (defaults ++ (if (defaults.map (·.1)).contains "data" then [] else [("data", Cell.none)]) ++
+          (if (defaults.map (·.1)).contains "expiry" then [] else [("expiry", Cell.none)]))
+        = some (.ok ds) ∧
+      JoinSpec (inputs ++ [("expiry", expiry)]) on
+        (defaults ++ (if (defaults.map (·.1)).contains "data" then [] else [("data", Cell.none)]) ++
+          (if (defaults.map (·.1)).contains "expiry" then [] else [("expiry", Cell.none)])) ds ∧
+      ((ds.nrows = 0 ∧ res = (.noRows ((inputs.find? (·.1 == "data")).map (·.2)), [])) ∨
+       (ds.nrows ≠ 0 ∧
+        let runs := rowRuns ds (ds.cols.contains "data") today
+        res = (.table (Table.toV (on.map fun k => (k, (ds.col? k).getD [])) ++
+            [("data", (List.range ds.nrows).map fun i =>
+              if runs i then f (rowArgs ds params i) else .cell (ds.jcellAt "data" i))]),
+          ((List.range ds.nrows).filter runs).map (rowArgs ds params)))) := by
+  cases hj : pdJoin (inputs ++ [("expiry", expiry)]) on
+      (defaults ++ (if (defaults.map (·.1)).contains "data" then [] else [("data", Cell.none)]) ++
+        (if (defaults.map (·.1)).contains "expiry" then [] else [("expiry", Cell.none)])) with
+  | none => simp only [perdictable, hj] at h; cases h
+  | some r =>
+    cases r with
+    | error e => simp only [perdictable, hj] at h; cases h
+    | ok ds =>
+      have hs := join_keys _ on _ ds hon hnames hoff htab hany hj
+      refine ⟨ds, rfl, hs, ?_⟩
+      by_cases hn : ds.nrows = 0
+      · rw [no_rows f params on defaults inputs expiry today ds hj hn] at h
+        simp only [Option.some.injEq, Except.ok.injEq] at h
+        exact .inl ⟨hn, h.symm⟩
+      · have ht : (inputs ++ [("expiry", expiry)]).any (fun kv => kv.2.isTable) = true := by
+          obtain ⟨a, ha⟩ := List.exists_mem_of_ne_nil _ hany
+          rw [List.any_eq_true]
+          exact ⟨_, mem_tableInputs.1 ha, rfl⟩
+        have hk := select_ok ds on (fun k hk => (hs.cols k).2 (.inl hk))
+        have := table_result f params on defaults inputs expiry today ds _ hj hn ht hon hk
+        simp only at this
+        rw [this] at h
+        simp only [Option.some.injEq, Except.ok.injEq] at h
+        exact .inr ⟨hn, h.symm⟩
+
 /-! ## non-vacuity and evaluation tests -/
 
 def fEx (args : List Cell) : Val := .tuple (args.map .cell)
@@ -472,10 +537,34 @@ def tB : Table := [("k", [.int 2, .int 3, .int 4]), ("b", [.str "x", .str "y", .
       t == [("k", [.cell (.int 2), .cell (.int 3)]), ("data", [.cell (.str "old2"), .tuple [.cell (.int 30), .cell (.str "y")]])]
   | _ => false)
 
-/-- the hypotheses of `join_keys_two_partial` are satisfiable -/
+/-- the hypotheses of `joinDef_two_tables` are satisfiable -/
 example : linter tA.cols tB.cols ≠ [] ∧
     tA.keysOf ((linter tA.cols tB.cols).map .col) = .ok [.tuple [.cell (.int 3)], .tuple [.cell (.int 1)], .tuple [.cell (.int 2)]] := by
   refine ⟨by decide, rfl⟩
+
+/-- the hypotheses of `join_keys` / `perdictable_end_to_end` are satisfiable: two tables (one with a
+default) and a scalar -/
+example : let inputs : List (String × PInput) := [("a", .table tA), ("b", .table tB), ("c", .scalar (.int 7))]
+    ["k"] ≠ [] ∧ (inputs.map (·.1)).Nodup ∧ (∀ kv ∈ inputs, kv.1 ∉ ["k"]) ∧
+    (∀ kv ∈ tableInputs inputs, kv.2.WF ∧ ∀ c ∈ ["k"], c ∈ kv.2.cols) ∧ tableInputs inputs ≠ [] := by
+  refine ⟨by decide, by decide, by decide, ?_, by decide⟩
+  intro kv hkv
+  simp only [tableInputs, List.filterMap_cons, List.filterMap_nil, List.mem_cons, List.not_mem_nil,
+    or_false] at hkv
+  rcases hkv with rfl | rfl
+  · exact ⟨⟨by decide, by decide⟩, by decide⟩
+  · exact ⟨⟨by decide, by decide⟩, by decide⟩
+
+-- … and `join` returns a table on them: key 1 (only in `a`) survives with b's default, key 4 (only in
+-- `b`, `a` has no default) does not; the scalar is broadcast; rows sorted by key
+#guard (match pdJoin [("a", .table tA), ("b", .table tB), ("c", .scalar (.int 7))] ["k"] [("b", .int 0)] with
+  | some (.ok t) => t.col? "k" == some [.int 1, .int 2, .int 3] && t.col? "a" == some [.int 10, .int 20, .int 30] &&
+      t.col? "b" == some [.int 0, .str "x", .str "y"] && t.col? "c" == some [.int 7, .int 7, .int 7]
+  | _ => false)
+-- all table inputs with defaults: the union of the keys
+#guard (match pdJoin [("a", .table tA), ("b", .table tB)] ["k"] [("a", .none), ("b", .int 0)] with
+  | some (.ok t) => t.col? "k" == some [.int 1, .int 2, .int 3, .int 4]
+  | _ => false)
 
 /-- the hypotheses of `join_keys_inner` are satisfiable: two inputs keyed by `k` -/
 example : FoldOK ["k"] tA [tB] := ⟨by decide, by decide, by decide, by decide⟩
